@@ -11,6 +11,8 @@ import Qfx.Drv.Dict
 import Qfx.Drv.DictMon
 import Qfx.Drv.Valid
 import Qfx.Drv.ValidMon
+import Qfx.Drv.Frame
+import Qfx.Drv.FrameMon
 namespace Qfx.Drv
 
 def families : List (String × Family) :=
@@ -20,6 +22,7 @@ def families : List (String × Family) :=
   , ("link", linkFamily), ("link-mon", linkMonFamily)
   , ("dict", dictFamily), ("dict-mon", dictMonFamily)
   , ("valid", validFamily), ("valid-mon", validMonFamily)
+  , ("frame", frameFamily), ("frame-mon", frameMonFamily)
   ]
 
 end Qfx.Drv
